@@ -903,6 +903,28 @@ example : (Core.glweSwitchingKeyEncryptSk [[0, 0], [0, 0]] 64 3 2 2 5 1 1 1 1 [[
     = some [(0, [[[-2, -1], [1, 0]], [[-3, -2], [-1, 0]]])] := by decide
 
 open Ks in
+/-- **`glwe_switching_key_encrypt_sk`, secrets of ANY ring degree dividing `n`** (the API asserts only `sk.n() ≤ module.n()`): every column of
+both secrets is embedded by `vec_znx_switch_ring` (`X ↦ X^(n/deg)`, column `i` from column `i`); the key is well formed with
+`s_in = ` the EMBEDDED input secret under the EMBEDDED output secret -/
+theorem glwe_switching_key_encrypt_sk_wellformed_any_degree {bits b n size kxe rankOut rankIn dnum dsize : Nat} {H E : Int}
+    (c : KeyCtx bits b n size kxe rankOut H E) (hd : 1 ≤ dsize) (tmp0 : Col) (htl : tmp0.length = size) (htw : WF n tmp0)
+    (skIn skOut : List Poly) (hin : ∀ s ∈ skIn, 0 < s.length ∧ s.length ∣ n ∧ ∀ x ∈ s, |x| ≤ 2 ^ 62)
+    (hout : ∀ s ∈ skOut, 0 < s.length ∧ s.length ∣ n ∧ norm1 s * 2 ^ (b - 1) ≤ H)
+    (xa : List Nat) (es : List Poly) (hes : ErrOk n E es (rankIn * dnum))
+    (cells : List (Nat × List Col)) (xa' : List Nat) (es' : List Poly)
+    (h : Core.glweSwitchingKeyEncryptSk tmp0 bits b n size kxe rankOut rankIn dnum dsize skIn skOut xa es = some (cells, xa', es')) :
+    es' = es.drop (rankIn * dnum) ∧ skIn.length = rankIn ∧ skOut.length = rankOut ∧
+    KeyWellFormed n b dsize size kxe dnum rankIn (Core.keyMat n dnum rankIn (rankOut + 1) size cells) (skOut.map (znxSwitchRing n))
+      (fun i => ι n ((skIn.map (znxSwitchRing n)).getD i [])) (fun i r => es.getD (i * dnum + r) []) :=
+  glweSwitchingKey_wellformed_deg c hd tmp0 htl htw skIn skOut hin hout xa es hes cells xa' es' h
+
+/-- non-vacuity: `n = 4`, input secret of degree 2, output secret of rank 2 and degree 2 — the two output columns are embedded separately -/
+example : (Core.glweSwitchingKeyEncryptSk [[0, 0, 0, 0], [0, 0, 0, 0]] 64 3 4 2 5 2 1 1 1 [[1, -1]] [[1, 0], [0, 1]]
+      [1, 2, 3, 4, 5, 6, 7, 8, 9, 10, 11, 12, 13, 14, 15, 16] [[0, 1, 0, 0]]).isSome ∧
+    ([[1, 0], [0, 1]] : List Poly).map (znxSwitchRing 4) = [[1, 0, 0, 0], [0, 0, 1, 0]] ∧ ([[1, -1]] : List Poly).map (znxSwitchRing 4) = [[1, 0, -1, 0]] := by
+  decide
+
+open Ks in
 /-- **`glwe_automorphism_key_encrypt_sk`**: `s_in = sk` under `σ_{p⁻¹}(sk)`, `p⁻¹ = galois_element_inv(p)` modulo `2n` -/
 theorem glwe_automorphism_key_encrypt_sk_wellformed {bits b n size kxe rank dnum dsize : Nat} {H E : Int}
     (c : KeyCtx bits b n size kxe rank H E) (hd : 1 ≤ dsize) (tmp0 : Col) (htl : tmp0.length = size) (htw : WF n tmp0) (p : Int)
